@@ -13,6 +13,9 @@ GenNext == \/ (\E c \in Conns : EnvC(c) \/ MainC(c) \/ AuxC(c)) /\ UNCHANGED don
 GenSpec == GenInit /\ [][GenNext]_<<vars, done>>
 Scenario == [c \in Conns |-> [hs |-> st[c].hs, tk |-> st[c].tk]]
 DumpInv == done => PrintT(<<"BEH", ToJson([sc |-> Scenario, tr |-> tr])>>)
+\* CONSTRAINT of Gen_TcpConn_C06NoFin.cfg: clients that never half-close (random walks rarely leave a client silent until
+\* its deadline otherwise)
+NoFin == \A c \in Conns : ~st[c].cfin
 \* Model finding -> behaviour.  With DrainMode = "inner" (tcp.go:307 as written) TLC finds a state in which a client that
 \* keeps an authenticated-but-invalid stream open sees the proxy's FIN, the target having closed only in response to the
 \* proxy's FIN.  Exhaustive BFS stops at the shortest such behaviour and prints it; c06 replays it on the real code.
